@@ -467,9 +467,10 @@ func dumpSchema() {
 }
 
 // genBer: ops
-//   ber M <ty> <params> <val>          marshal
-//   ber R <ty> <params> <val>          marshal, then unmarshal into a fresh variable (round trip)
-//   ber U <ty> <params> <hex>          unmarshal arbitrary octets
+//
+//	ber M <ty> <params> <val>          marshal
+//	ber R <ty> <params> <val>          marshal, then unmarshal into a fresh variable (round trip)
+//	ber U <ty> <params> <hex>          unmarshal arbitrary octets
 func genBer(o genOpts, w *bufio.Writer) {
 	r := &rng{s: o.seed}
 	big := o.tier == "thorough"
